@@ -352,6 +352,20 @@ def check_case(case) -> Obs:
         obs.bad("C01/untouched-object-changed", _msg)
     if world.templates:
         obs.cls("cloned-labware")
+    if not obs.violations and len(world.wl) > 0:
+        # the file the robot executes holds the very records that were interpreted above (rack labels byte for byte)
+        import shutil
+        import tempfile
+
+        tmp = tempfile.mkdtemp(prefix="vf_c01_")
+        try:
+            path = os.path.join(tmp, "run.gwl")
+            world.wl.save(path)
+            data = open(path, "rb").read().decode("latin-1")
+            if data.split("\r\n") != [str(r) for r in world.wl]:
+                obs.bad("C01/file-differs", f"the saved worklist does not hold the records that were executed: {data[:120]!r} vs {list(world.wl)[:3]}")
+        finally:
+            shutil.rmtree(tmp, ignore_errors=True)
     obs.nontrivial = moved
     return obs
 
